@@ -111,11 +111,13 @@ def check(hist: list[dict], mode: str, eps_due: float, res_order: float, qwait: 
                 tbl[ev["id"]]["entries"].append(i)
 
     def removed_at(rec):
-        """index of the first removal call that reported success, else None"""
+        """index and result of the first removal call made for this (live) watch / idle callback.  The call counts as
+        the removal whatever it returned: the client removed a registration it holds the handle of (stale handles are
+        filtered out by the workload), so the callback must not run afterwards; a result other than True is named in
+        the signature"""
         for i, ret, _ctx in rec["removes"]:
-            if ret is True:
-                return i
-        return None
+            return i, ret
+        return None, None
 
     def is_q(ev):
         """is this `block` record a quiescent wait?"""
@@ -203,7 +205,7 @@ def check(hist: list[dict], mode: str, eps_due: float, res_order: float, qwait: 
 
     # ---------------------------------------------------------------- watches
     for cid, w in watches.items():
-        rm = removed_at(w)
+        rm, rm_ret = removed_at(w)
         for i in w["entries"]:
             R.evals["watch-readable"] += 1
             if w["fd"] not in hist[i]["readable"]:
@@ -214,14 +216,18 @@ def check(hist: list[dict], mode: str, eps_due: float, res_order: float, qwait: 
                 ctx = next(c for j, _r, c in w["removes"] if j == rm)
                 R.bad(
                     "watch-after-remove",
-                    f"removed-{_ctxkind(ctx, cid)}" + ("|still-called-after-quiescence" if quiescent_between(rm, i) else "|only-in-the-dispatch-batch-of-the-removal"),
-                    f"watch {cid} entered after remove_watch_file returned True",
+                    f"removed-{_ctxkind(ctx, cid)}"
+                    + ("|still-called-after-quiescence" if quiescent_between(rm, i) else "|only-in-the-dispatch-batch-of-the-removal")
+                    + ("" if rm_ret is True else f"|removal-returned-{rm_ret}"),
+                    f"watch {cid} (fd key {w['fd']}) entered after remove_watch_file returned {rm_ret}",
                     i,
                 )
         for i, ret, _ctx in w["removes"]:
             R.obs[f"remove_watch_file-returned-{ret}" + ("-first" if i == w["removes"][0][0] else "-again")] += 1
+            if i == w["removes"][0][0] and seg_of[i] == seg_of[w["reg"]]:
+                R.obs[f"remove_watch_file-of-live-watch-returned-{ret}"] += 1
     for cid, d in idles.items():
-        rm = removed_at(d)
+        rm, rm_ret = removed_at(d)
         for i in d["entries"]:
             R.evals["idle-after-remove"] += 1
             R.evals_later["idle-after-remove"] += bool(seg_of[i])
@@ -229,8 +235,10 @@ def check(hist: list[dict], mode: str, eps_due: float, res_order: float, qwait: 
                 ctx = next(c for j, _r, c in d["removes"] if j == rm)
                 R.bad(
                     "idle-after-remove",
-                    f"removed-{_ctxkind(ctx, cid)}" + ("|still-called-after-quiescence" if quiescent_between(rm, i) else "|only-in-the-idle-pass-of-the-removal"),
-                    f"idle {cid} entered after remove_enter_idle returned True",
+                    f"removed-{_ctxkind(ctx, cid)}"
+                    + ("|still-called-after-quiescence" if quiescent_between(rm, i) else "|only-in-the-idle-pass-of-the-removal")
+                    + ("" if rm_ret is True else f"|removal-returned-{rm_ret}"),
+                    f"idle {cid} entered after remove_enter_idle returned {rm_ret}",
                     i,
                 )
         for i, ret, _ctx in d["removes"]:
